@@ -190,6 +190,8 @@ class Flows:
         self.conns = []            # client connections opened to the proxy: (cid, ip, port)
         self.next_conn = 0         # connection ids are handed out in order: accepts and the proxy's own dials
         self.out_conn = None       # the connection the proxy dialled to the TCP next hop
+        self.rt_conn = None        # the accepted connection Route-carrying requests arrive on
+        self.nobranch = False      # the next request's top Via carries no branch
 
     # ---- pieces
     def nid(self):
@@ -224,7 +226,10 @@ class Flows:
         n = n if n is not None else r.choice([1, 1, 1, 2, 3])
         vias = []
         top = b"SIP/2.0/" + proto + b" " + r.choice([ua[0] + b":%d" % ua[1], ua[0] + b":%d" % ua[1], ua[0]])
-        top += b";branch=z9hG4bK-g%d" % self.nid()
+        # a top Via without a branch is legal (RFC 2543 style): no client transaction can be formed from it, the request
+        # is relayed all the same
+        if not (self.nobranch or r.random() < 0.03):
+            top += b";branch=z9hG4bK-g%d" % self.nid()
         # (parameter names in other letter cases are other parameters to the proxy's exact-match look-ups and updates)
         top += r.choice([b"", b";rport", b";rport;x=1", b";received=10.9.9.9", b";rport=1;received=10.9.9.9", b";y", b";rport=5080",
                          b";Received=10.9.9.9", b";RPORT;received=10.9.9.9", b";Rport=7;RECEIVED=10.8.8.8;rport"])
@@ -395,8 +400,13 @@ class Flows:
         """request carrying a Route set"""
         r, s = self.rng, self.s
         l = s.listens[self.li]
-        own = [b"<sip:" + l["addr"] + b":%d;lr>" % l["udp"], b"<sip:proxy.local:%d;lr>" % l["udp"],
-               b"<sip:alias.local:5060;lr>;hp=1", b"\"P\" <sip:u@" + l["addr"] + b":5060;lr;x=1>"]
+        # one time in five (when there is a TCP listener) the request arrives over an accepted TCP connection.  The own
+        # entries then name the TCP port: an entry naming the listener's UDP port is NOT the TCP listener's own, the request
+        # would be sent to the proxy's own UDP socket and come back in - a feedback loop the model does not play
+        over_tcp = bool(l["tcp"]) and r.random() < 0.2
+        op = l["tcp"] if over_tcp else l["udp"]
+        own = [b"<sip:" + l["addr"] + b":%d;lr>" % op, b"<sip:proxy.local:%d;lr>" % op,
+               b"<sip:alias.local:%d;lr>;hp=1" % op, b"\"P\" <sip:u@" + l["addr"] + b":%d;lr;x=1>" % op]
         near = [b"<sip:" + l["addr"] + b":5099;lr>", b"<sip:hop1.local:5060;lr>", b"<sip:" + s.ip(3) + b":5060;lr>"]
         hk = hopkind or r.choice(["udp", "udp", "name", "tcp", "tls", "noport", "tel"])
         h = r.choice(self.hops)
@@ -414,6 +424,17 @@ class Flows:
         ua = r.choice(self.uas)
         tohost = r.choice([b"static.example.org", b"x.wild.example.org", b"nowhere.example.net"])
         rr = [b"<sip:up.example.net;lr>"] if r.random() < 0.4 else []
+        if over_tcp:
+            # one time in three from a client whose top Via has no branch
+            if self.rt_conn is None:
+                s.ev_accept(self.li, s.ip(22), 43000 + self.next_conn)
+                self.rt_conn = self.next_conn
+                self.next_conn += 1
+            self.nobranch = r.random() < 0.34
+            data, hs = self.request(r.choice(METHODS), self.service_uri(r.random() < 0.5), (s.ip(22), 5060), self.ft(a, b"t%d" % self.nid(), True),
+                                    self.ft(b"sip:u@" + tohost, None, True), b"rc-%d" % self.nid(), routes=routes, rr=rr, proto=b"TCP")
+            self.nobranch = False
+            return s.ev_data(self.rt_conn, data)
         data, hs = self.request(r.choice(METHODS), self.service_uri(r.random() < 0.5), ua, self.ft(a, b"t%d" % self.nid(), True),
                                 self.ft(b"sip:u@" + tohost, None, True), b"rc-%d" % self.nid(), routes=routes, rr=rr)
         return s.ev_udp(self.li, ua, self.surplus(data))
